@@ -810,6 +810,13 @@ func (p *Path) invoke(g *G, fr *Frame, fv *FuncV, args []Value, retIdx int, onDo
 	if fv.hasRcv {
 		args = append([]Value{fv.recv}, args...)
 	}
+	if fv.fn != nil && g.id == -1 && (fv.fn.Name() == "init" || strings.HasPrefix(fv.fn.Name(), "init#")) {
+		// package initialisation: only variable initialisers are interpreted
+		if onDone != nil {
+			onDone()
+		}
+		return stNext
+	}
 	if fv.fn != nil {
 		name := fv.fn.String()
 		if rd, ok := p.eng.redirects[name]; ok {
